@@ -97,6 +97,35 @@ CLAIMED["C17"] = (
     "A",
 )
 
+CLAIMED["C12"] = (
+    "property-based testing with a binding model known by construction: generated well-typed programs; for sampled identifier occurrences and cursor columns the four go-to requests are compared with the declaring name token of the bound entity; non-identifier positions must yield no location and no error",
+    "Exploration: 6k (120k) programs x up to 14 occurrences x 4 requests (about 400k (8M) requests) plus 3k (60k) programs with non-identifier positions. Occurrences whose spelling is both a local of the enclosing procedure and a global entity are the recorded class name-denotes-global-and-local; all others must be exact.",
+    "Trusted: generator's scoping model (locals before globals, parameter types in global scope, name equivalence of array types through aliases), client position model.",
+    "DESIGN.md section 6 C12",
+    "A+B",
+)
+CLAIMED["C13"] = (
+    "property-based testing with occurrence sets known by construction (two-directional set equality) and a metamorphic rename round trip (apply edits with the client model, same diagnostics, rename back restores the text); prepareRename/rename agreement",
+    "Exploration: 8k (150k) programs x up to 10 occurrences x (references, prepareRename, rename, re-analysis, rename back) plus non-identifier positions.",
+    "Trusted: generator's binding model; client edit model. Renaming `main` and predefined entities is outside the diagnostics-preservation claim (documented).",
+    "DESIGN.md section 6 C13",
+    "A",
+)
+CLAIMED["C14"] = (
+    "property-based testing: hover text and range vs the signature rendered from the generator's model (resolved types, reference markers, documentation lines in order); signature help at every token boundary inside argument lists vs declared signature, parameter entries and comma count",
+    "Exploration: 8k (150k) programs for hover (up to 14 occurrences each) and 8k (150k) for signature help (up to 8 calls, all token boundaries plus random offsets): about 600k (10M) requests.",
+    "Trusted: generator's model and its rendering of signatures (the server's Display implementations are not used by the oracle).",
+    "DESIGN.md section 6 C14",
+    "A",
+)
+CLAIMED["C16"] = (
+    "property-based testing over cursor positions classified by construction (token sites): completion responses compared as sorted label lists per item kind with the scope model (parameters+locals, declared+predefined procedures, declared types+int, declaration starters only at top level, no foreign locals)",
+    "Exploration: 40k (600k) (program, position) cases over eight position classes, each with and without whitespace in front of the cursor. Positions directly behind a token (nothing typed) are the recorded tight findings; positions behind `=`/`of` in type expressions are not in the property's quantifier and not generated.",
+    "Trusted: generator's scope model; classification of gaps by token site.",
+    "DESIGN.md section 6 C16",
+    "A",
+)
+
 NOT_YET = "check not built yet (implementation in progress, see DESIGN.md section 8 build order)"
 NOT_APPLICABLE = {}
 
